@@ -882,6 +882,9 @@ def run_all(chk, cfgs):
 def main():
     chk = Check("C07", groups=["loss"])
     chk.build_props()
+    from harness import covtrace
+
+    _cov = covtrace.start({"stable_baselines3/ppo/ppo.py": ["PPO.train", "PPO._setup_model"], "stable_baselines3/a2c/a2c.py": ["A2C.train"], "stable_baselines3/dqn/dqn.py": ["DQN.train", "DQN._setup_model"], "stable_baselines3/sac/sac.py": ["SAC.train", "SAC._setup_model"], "stable_baselines3/td3/td3.py": ["TD3.train", "TD3._setup_model"], "stable_baselines3/ddpg/ddpg.py": ["DDPG.__init__"], "stable_baselines3/common/base_class.py": ["BaseAlgorithm._update_learning_rate", "BaseAlgorithm._update_current_progress_remaining"], "stable_baselines3/common/utils.py": ["update_learning_rate"]}) if covtrace.enabled() else None
     cfgs = []
     corpus = os.path.join(common.VERIF, "corpus", "C07.jsonl")
     if os.path.exists(corpus):
@@ -930,6 +933,8 @@ def main():
         "behaviour exactly at the kinks (ratio = 1 +- clip, |v - v_old| = clip_vf, |td error| = 1, equal critics) is outside the derivative theorems and has probability zero in the runs",
         "hooks are installed from the harness process on the model instance / torch entry points (Tensor.backward with retain_graph, clip_grad_norm_, Tensor.normal_); /repo is not modified",
     ]
+    if _cov is not None:
+        chk.notes["branch_coverage"] = _cov.stop()
     return chk.finish()
 
 
